@@ -252,6 +252,9 @@ its history (checked by replaying both histories with either fix alone).
 | C04-10 | an asker that dies and is spawned again under its name while replies to the old incarnation are due | `Respawn` of ask-only actors in the virtual unit |
 | C07-7 | a send that is inside the reconnect back-off at the moment of Stop | three fixed shapes in front of the generated cases of the remoting unit, `unreachable` drawn more often |
 | C05-7 | a restart directive that also reaches the descendant whose failure was escalated | caught by C08 (`targets|incarnations`, `seeded/CROSS.tsv`); C05's per-actor lifecycle stays legal under this change |
+| C12-7 / C12-9 | the short length prefixes at their boundary (256 / 65536 bytes); a codec-only message nested in a carrier whose encoding is zero bytes | own test `TestC12LengthPrefixes`; `EmptyMsg` and codec-only messages in interface-typed fields |
+| C17-8 | two incarnations with the same generation and logical clock (the order-insensitivity was only checked on that projection) | commutativity / associativity also on the records (generation, clock, start stamp) |
+| C20-7 | the place of a scheduled message in the receiver's queue | own unit `mailbox` (busy receiver, messages queued before and sent after the firing instant) |
 | C03-8 | a lost wake-up inside the mailbox (a window of a few instructions between the counter read and the idle store) | caught by C01, whose unit owns the mailbox's schedule (`lost-wakeup`, `seeded/CROSS.tsv`); C03's free-running units hit the window in some runs only (then the case cannot be left: `bubble-deadlock`) |
 
 ### 9.5 Known findings (genuine, not repaired) and why they are not small
